@@ -1,5 +1,6 @@
-"""Models of C-level builtins / methods applied to symbolic values.  Each is validated
-against CPython by selftest.py (differentially, on concrete and pinned-symbolic inputs)."""
+"""Models of C-level builtins / methods applied to symbolic values.  Every model is validated
+on every explored path: the harness re-runs the obligation natively on one concrete model of the
+path and compares verdicts (harness.run_prop)."""
 import builtins
 import html
 import os
